@@ -10,7 +10,8 @@ structure St where
   now : Int
   table : Providers.Table
   spec : C06Spec.S
-deriving Inhabited
+  /-- chunk names seen so far (the model's table is a function; this is only used to print it) -/
+  keys : List String
 
 def vclockStart : Int := 1000000000000
 
@@ -20,14 +21,12 @@ def fmtHolders (hs : List (String × Int)) : String :=
 
 def fmtModelHolders (hs : List Providers.Holder) : String := fmtHolders (hs.map fun h => (h.peer, h.exp))
 
-def holdersOf (t : Providers.Table) (c : String) : List Providers.Holder :=
-  match Providers.lookup t c with
-  | some l => l.holders
-  | none => []
+def holdersOf (t : Providers.Table) (c : String) : List Providers.Holder := Providers.holdersOf t c
 
-def fmtTable (t : Providers.Table) : String :=
-  if t.isEmpty then "-" else
-  "|".intercalate ((t.mergeSort (fun a b => a.chunk ≤ b.chunk)).map fun l => s!"{l.chunk}=[{fmtModelHolders l.holders}]")
+def fmtTable (keys : List String) (t : Providers.Table) : String :=
+  let present := keys.eraseDups.filter fun c => (t c).isSome
+  if present.isEmpty then "-" else
+  "|".intercalate ((present.mergeSort (fun a b => a ≤ b)).map fun c => s!"{c}=[{fmtModelHolders (holdersOf t c)}]")
 
 /-- parse `p:e,p:e` (or `-`) -/
 def parseHolders (s : String) : Option (List (String × Int)) :=
@@ -53,7 +52,7 @@ def step (st : St) (tok : List String) (_line : String) (impl : Option String) :
       let liveHint := implHolders.map fun hs => (hs.filter fun (_, e) => decide (st.now < e)).map (·.1)
       let (s', okHint) := C06Spec.add st.spec st.now c p (st.now + secs * 1000000000) liveHint
       let verdict := if impl.isSome && !okHint then "viol:top20:kept set is not the 20 latest-expiring live providers" else "ok"
-      ({ st with table := t', spec := s' }, fmtModelHolders (holdersOf t' c), verdict)
+      ({ st with table := t', spec := s', keys := c :: st.keys }, fmtModelHolders (holdersOf t' c), verdict)
   | ["find", c] =>
     let (t', hs) := Providers.findProviders st.table st.now c
     let expect := fmtHolders ((C06Spec.find st.spec st.now c).map fun a => (a.peer, a.exp))
@@ -63,13 +62,13 @@ def step (st : St) (tok : List String) (_line : String) (impl : Option String) :
     ({ st with table := t' }, fmtModelHolders hs, verdict)
   | ["sweep"] =>
     let t' := Providers.sweep st.table st.now
-    ({ st with table := t' }, fmtTable t', "ok")
+    ({ st with table := t' }, fmtTable st.keys t', "ok")
   | ["withdraw", c, p] =>
     let t' := Providers.withdraw st.table c p
     ({ st with table := t', spec := C06Spec.withdraw st.spec c p }, fmtModelHolders (holdersOf t' c), "ok")
   | _ => (st, "bad-op", "ok")
 
-def machine : Machine St := { init := ⟨vclockStart, [], []⟩, step := step }
+def machine : Machine St := { init := ⟨vclockStart, Providers.Table.empty, C06Spec.empty, []⟩, step := step }
 
 end EphVerif.DriverC06
 
